@@ -53,8 +53,11 @@ def scenarios(ctx: Ctx, res: Result):
 
 def run(ctx: Ctx) -> Result:
     res = Result()
-    scs = [ctx.replay['replay']] if ctx.replay is not None else scenarios(ctx, res)
-    run_scenarios(ctx, scs, res, SIGS)
+    if ctx.replay is None or not ctx.replay['replay'].get('race'):
+        scs = [ctx.replay['replay']] if ctx.replay is not None else scenarios(ctx, res)
+        run_scenarios(ctx, scs, res, SIGS)
+    from harness import decider_race
+    decider_race.attach(ctx, res)
     return res
 
 
